@@ -94,60 +94,11 @@ def spec_items(st):
     return out
 
 
-def refine_model(ctx, model, tries=3):
-    """Make the uninterpreted unpack() functions agree with the real struct.unpack on the bytes the model chose
-    (DESIGN.md section 3, 'Uninterpreted results').  Returns a model or None (path explored but not validated)."""
-    calls = ctx.notes.get("unpack_calls", [])
-    if not calls:
-        return model
-    for _ in range(tries):
-        facts = []
-        ok = True
-        for fmt, word in calls:
-            n = word.size() // 8
-            val = model.eval(word, model_completion=True).as_long()
-            real = struct.unpack(fmt, val.to_bytes(n, "big"))[0]
-            if real != real or real in (float("inf"), float("-inf")):
-                ok = False
-                break
-            facts.append(word == val)
-            facts.append(bv.unpack_fn(fmt, n)(z3.BitVecVal(val, 8 * n)) == bv.real_of(real))
-        if not ok:
-            # ask for different bytes for the offending call
-            r = ctx.check(word != val)
-            if r != z3.sat:
-                return None
-            model = ctx.s.model()
-            continue
-        r = ctx.check(*facts)
-        if r == z3.sat:
-            return ctx.s.model()
-        # the branch taken on this path is not satisfied by the real value for these bytes: try other bytes
-        r = ctx.check(z3.Or([z3.Not(f) for f in facts[::2]]))
-        if r != z3.sat:
-            return None
-        model = ctx.s.model()
-    return None
+from spv.harness import refine_model  # noqa: E402,F401
 
 
 class E2E(Harness):
     kind = "e2e"
-
-    def soft(self, res):
-        # prefer printable ASCII for every byte that reaches bytes.decode (the codec itself is outside the claim),
-        # pseudo-random contents elsewhere
-        s = []
-        seen = set()
-        for _, items in Ctx.cur.notes.get("decode_calls", []):
-            for b in items:
-                if not isinstance(b, int):
-                    for v in _vars(b):
-                        seen.add(v.get_id())
-                    s.append(z3.And(z3.ULT(b, 0x7F), z3.UGE(b, 0x20)))
-        for c in super().soft(res):
-            if c.arg(0).get_id() not in seen:
-                s.append(c)
-        return s
 
     def build_stream(self, lens):
         items, pk = [], []
@@ -317,23 +268,6 @@ class E2E(Harness):
             if sv is None:
                 continue
             obl.append((f"pkt{i}.{n}: partial value", same(pd[n], sv)))
-
-    def concretize(self, model, res):
-        m = refine_model(Ctx.cur, model)
-        if m is None:
-            req = super().concretize(model, res)
-            req["skip_validation"] = True
-            return req
-        req = super().concretize(m, res)
-        bad_decode = False
-        for codec, items in Ctx.cur.notes.get("decode_calls", []):
-            try:
-                bv.model_bytes(m, items).decode(codec)
-            except (UnicodeDecodeError, LookupError):
-                bad_decode = True
-        if bad_decode or _undecodable(req["expect"]):
-            req["skip_validation"] = True      # codec errors are outside the claim: explored, not validated
-        return req
 
 
 def _vars(t):
